@@ -33,6 +33,7 @@ func TestMain(m *testing.M) {
 			"inside a transaction rows are read through the primary index only (WHERE clauses use key columns and columns without a secondary index): reads through a secondary index inside the writing transaction are C11's known findings K11/K12",
 			"in tables with secondary indexes a transaction does not change the indexed columns of existing rows (two rows of one transaction meeting in one index value fail with 'cannot change a non-transient key to transient'), does not re-create a row it deleted, and uses ON CONFLICT DO UPDATE only without UNIQUE indexes (the engine rejects or mishandles these, C11/C12 territory)",
 			"a table created by a transaction is only inserted into by that transaction (the engine answers 'index not found' to reads of a table created in the same transaction)",
+			"once another session has committed DDL, a transaction no longer uses the tables it created or altered itself (both catalogs handed out the same table / column ids, the engine answers 'data is corrupted' to the statement; such a transaction cannot commit anyway)",
 			"savepoint names are referred to only while PostgreSQL's stack of savepoints and the engine's map of names agree on what they denote (not after ROLLBACK TO the same name, not a name declared after a savepoint that was rolled back to or released)",
 			"COMMIT may fail with a read conflict whenever another session committed since BEGIN (either outcome accepted, then checked for all-or-nothing); without such a commit it must succeed",
 			"AUTO_INCREMENT counters are not rolled back by ROLLBACK TO SAVEPOINT (sequence semantics) in the reference",
